@@ -50,15 +50,16 @@ func capture(f func()) string {
 }
 
 type EmitEv struct {
-	Op      string  `json:"op"`
-	ID      int     `json:"id"`
-	Kind    string  `json:"kind"`
-	Tag     string  `json:"tag"`
-	Res     string  `json:"res"`
-	Secrets [][]int `json:"secrets"` // strings that must not appear in the output
-	Chars   []int   `json:"chars"`   // distinctive characters (occur in no message of the library) that must not appear
-	Out     []int   `json:"out"`     // captured text
-	Rejected int    `json:"rejected"` // rejected candidates among the secrets
+	Op       string  `json:"op"`
+	ID       int     `json:"id"`
+	Kind     string  `json:"kind"`
+	Tag      string  `json:"tag"`
+	Res      string  `json:"res"`
+	Secrets  [][]int `json:"secrets"`  // strings that must not appear in the output
+	Chars    []int   `json:"chars"`    // distinctive characters (occur in no message of the library) that must not appear
+	Out      []int   `json:"out"`      // captured text
+	Rejected int     `json:"rejected"` // rejected candidates among the secrets
+	Earlier  int     `json:"earlier"`  // how many of the secrets stem from earlier runs in the same process
 }
 
 func distinctive(cps []int) []int {
@@ -84,6 +85,8 @@ func cmdEmit(args []string) {
 	fs.Parse(args)
 	scs := readScenarios(*scen)
 	em := NewEmitter(*out)
+	// secrets of the most recent runs in this process: a diagnostic may leak what an EARLIER call produced
+	var recent [][]int
 	for i, sc := range scs {
 		if i%*shards != *shard {
 			continue
@@ -200,6 +203,15 @@ func cmdEmit(args []string) {
 			ev.Out = CPs(text)
 			if len(ev.Out) > 4000 {
 				ev.Out = ev.Out[:4000]
+			}
+			own := len(ev.Secrets)
+			if len(ev.Out) > 0 {
+				ev.Secrets = append(ev.Secrets, recent...)
+			}
+			ev.Earlier = len(ev.Secrets) - own
+			recent = append(recent, ev.Secrets[:own]...)
+			if len(recent) > 60 {
+				recent = recent[len(recent)-60:]
 			}
 			em.Emit(ev)
 		}
